@@ -350,6 +350,8 @@ struct ModCtx {
     types: Vec<Sig>,
     rec: bool,
     mem_pages: u32,
+    /// the module has no memory: no loads, stores, memory.size / memory.grow, data segments
+    no_mem: bool,
     stats: Stats,
 }
 
@@ -457,14 +459,14 @@ impl ModCtx {
             3,                                                   // 2 unop
             if ty == Ty::I32 { 4 } else { 0 },                   // 3 relop / eqz
             3,                                                   // 4 conversion
-            if straight { 0 } else { 4 },                        // 5 load
+            if straight || self.no_mem { 0 } else { 4 },         // 5 load
             2,                                                   // 6 select
             if straight { 0 } else { 3 },                        // 7 if-expression
             if straight { 0 } else { 1 },                        // 8 block with br_if carrying a value
             if callees.is_empty() { 0 } else { 4 },              // 9 call
             if host.is_empty() { 0 } else { 2 },                 // 10 host call
             if indirect.is_empty() { 0 } else { 2 },             // 11 call_indirect
-            if ty == Ty::I32 && !straight { 1 } else { 0 },      // 12 memory.size / memory.grow
+            if ty == Ty::I32 && !straight && !self.no_mem { 1 } else { 0 }, // 12 memory.size / memory.grow
             2,                                                   // 13 local.tee
             if straight { 0 } else { 2 },                        // 14 div / rem
         ];
@@ -645,7 +647,7 @@ impl ModCtx {
         let w = [
             if f.vars.is_empty() { 0 } else { 10 },           // 0 local.set
             if mutable_globals.is_empty() { 0 } else { 4 },    // 1 global.set
-            if straight { 0 } else { 7 },                      // 2 store
+            if straight || self.no_mem { 0 } else { 7 },       // 2 store
             3,                                                 // 3 drop(expr)
             if nested { 6 } else { 0 },                        // 4 if / else
             if nested { 3 } else { 0 },                        // 5 block with breaks
@@ -657,7 +659,7 @@ impl ModCtx {
             if f.labels.is_empty() || straight { 0 } else { 3 }, // 11 br / br_if to an enclosing label
             if straight { 0 } else { 1 },                      // 12 conditional unreachable / early return
             1,                                                 // 13 nop
-            if straight { 0 } else { 1 },                      // 14 memory.grow
+            if straight || self.no_mem { 0 } else { 1 },       // 14 memory.grow
             if self.rec && !f.leaf && !straight && !f.uses_rec { 2 } else { 0 }, // 15 shallow recursion
         ];
         let ed = depth.min(3) + 1;
@@ -946,6 +948,7 @@ pub fn generate(g: &mut Gen, opts: &Opts) -> Module {
         types: vec![],
         rec: false,
         mem_pages: 1,
+        no_mem: toggle == Toggle::NoMemory,
         stats: Stats::default(),
     };
 
@@ -1264,10 +1267,8 @@ pub fn generate(g: &mut Gen, opts: &Opts) -> Module {
         call.push(')');
         let call = if sig0.result.is_some() { format!("(drop {})", call) } else { call };
         let rec_call = if m.rec { "(drop (call $rec (i32.and (i32.wrap_i64 (local.get 0)) (i32.const 2047))))\n" } else { "" };
-        w.push_str(&format!(
-            "(func $entry (param i64) (result i64)\n{}\n{}(i32.store8 (i32.const 0) (i32.const 92))\n(i32.store8 (i32.const 1) (i32.const 33))\n(i32.store8 (i32.const 2) (i32.const 0))\n(i64.const 3))\n(export \"Test_f\" (func $entry))\n",
-            call, rec_call
-        ));
+        let unit = if m.no_mem { "" } else { "(i32.store8 (i32.const 0) (i32.const 92))\n(i32.store8 (i32.const 1) (i32.const 33))\n(i32.store8 (i32.const 2) (i32.const 0))\n" };
+        w.push_str(&format!("(func $entry (param i64) (result i64)\n{}\n{}{}(i64.const 3))\n(export \"Test_f\" (func $entry))\n", call, rec_call, unit));
         exports.push(Export { name: "Test_f".into(), sig: Sig { params: vec![Ty::I64], result: Some(Ty::I64) }, straight: false, recursive: m.rec });
     }
     if opts.export_all {
